@@ -47,6 +47,9 @@ META = {
 EPS32 = 2.0 ** -22
 
 
+shrink_hints = bw.shrink_hints
+
+
 def prepare():
     bw.setup()
 
